@@ -69,7 +69,9 @@ type SExec struct {
 	evt int
 	// counterTaint: the program changed a replica\'s mode through the operator\'s
 	// set-mode API; the revision counts of the RW replicas need not agree any more
-	counterTaint           bool
+	counterTaint bool
+	// cpCutByRevert: the checkpoint the controller held when a volume revert last succeeded
+	cpCutByRevert          string
 	regSeq                 map[int]int
 	listedSeq              map[int]int
 	AttAck                 map[int]int // node -> len(Acked) when it was (re)attached
@@ -1233,7 +1235,64 @@ func (x *SExec) Verify() *Fail {
 	if f := x.settleERR(); f != nil {
 		return f
 	}
-	return x.verifyState(true)
+	if f := x.verifyState(true); f != nil {
+		return f
+	}
+	return x.verifySnapImages()
+}
+
+// verifySnapImages: every volume snapshot that was taken while the model knew the
+// volume's content is, on every RW replica that has it in its chain, exactly the
+// image of that moment (read from the files by the independent chain reader) - the
+// same content on every replica, and unchanged by whatever happened since.
+func (x *SExec) verifySnapImages() *Fail {
+	if len(x.snapImg) == 0 || len(x.snapImg) > 8 {
+		return nil
+	}
+	st := x.St
+	for j, nd := range st.Nodes {
+		if x.Mode[j] != types.RW || st.Mode(j) != types.RW {
+			continue
+		}
+		if len(x.subBlockWO[j]) > 0 {
+			// this replica took a write that is not block aligned while it was rebuilding:
+			// its image is off since its promotion (the known finding of C07, DESIGN 7.2)
+			x.Labels["snapimage:skipped-sub-block-write-while-rebuilding"]++
+			continue
+		}
+		rp := func() (r *replica.Replica) {
+			defer func() { recover() }()
+			return nd.S.Replica()
+		}()
+		if rp == nil {
+			continue
+		}
+		ch, err := rp.Chain()
+		if err != nil {
+			continue
+		}
+		for name, want := range x.snapImg {
+			if x.snapMarked[name] != "" {
+				continue
+			}
+			disk, in := snapDisk(name), false
+			for _, d := range ch[1:] {
+				in = in || d == disk
+			}
+			if !in || int64(len(want.B)) != rp.Info().Size {
+				continue
+			}
+			img, err := ReadDiskImage(nd.Dir, disk, int64(len(want.B)))
+			if err != nil {
+				return sfail("snapshot|unreadable|after="+x.lastOp, fmt.Sprintf("volume snapshot %s on n%d: %v", name, j, err), "C13", "C06")
+			}
+			if d := want.Diff(img, 0); d != "" {
+				return sfail("snapshot|content-differs-from-the-moment-it-was-taken|after="+x.lastOp, fmt.Sprintf("volume snapshot %s on n%d (RW) after %s: %s", name, j, x.lastOp, d), "C13", "C06")
+			}
+			x.Labels["snapimage:checked"]++
+		}
+	}
+	return nil
 }
 
 func (x *SExec) verifyState(withModel bool) *Fail {
@@ -1380,7 +1439,11 @@ func (x *SExec) verifyState(withModel bool) *Fail {
 						found = true
 					}
 				}
-				if !found {
+				if !found && x.cpCutByRevert == vs.Checkpoint {
+					// a volume revert went below the checkpoint: the controller and the
+					// replicas keep naming it until the next one is recorded (DESIGN 7.3)
+					x.Labels["checkpoint:cut-out-by-revert"]++
+				} else if !found {
 					return sfail("checkpoint|not-in-chain", fmt.Sprintf("checkpoint %s not in n%d chain %v", vs.Checkpoint, j, ch), "C13")
 				}
 			}
@@ -2859,6 +2922,9 @@ func (x *SExec) doCtlRevert(i int, op SOp) *Fail {
 		return sfail("ctlrevert|valid|refused", fmt.Sprintf("volume revert to %s refused: %v", name, err), "C06")
 	}
 	x.Labels["ctlrevert:ok"]++
+	if cp := st.C.VerifState().Checkpoint; cp != "" {
+		x.cpCutByRevert = cp // (only consulted if that snapshot is indeed missing from a chain)
+	}
 	if len(F) > 0 {
 		x.Labels["ctlrevert:partial-failure"]++
 	}
